@@ -22,7 +22,8 @@ for d in sorted(glob.glob(root + '/*/')):
     for k in ('summary', 'needs', 'files_changed'):
         if k in agent and k not in meta:
             meta[k] = agent[k]
-    meta.setdefault('round', 2 if re.match(r'C\d+b-', name) else 1)
+    sfx = re.match(r'C\d+([a-z]?)-', name).group(1)
+    meta['round'] = 1 if not sfx else ord(sfx) - ord('a') + 1
     meta.setdefault('origin', 'written by a fresh sub-agent that saw only the property text and its own scratch worktree of /repo (nothing from /verif)')
     meta.setdefault('confirmed_by_me', [
         'patch applies with git apply at the repository root',
